@@ -28,6 +28,8 @@ type Prop struct {
 	// properties whose library functions are stateless / documented safe for concurrent use:
 	// shared scratch state, caches or pools inside the library then show up as wrong verdicts.
 	Parallel int
+	// Scale386 is the divisor applied to random-class volumes in the 386 build (0 = 4).
+	Scale386 int
 	// SelfTest validates the oracle against published vectors. A failure
 	// aborts the run as "broken oracle" (exit 2), never as a violation.
 	SelfTest func() error
@@ -182,9 +184,7 @@ func (g *Gen) Pick(q, t int) int {
 // Share returns this shard's share of a total of n random cases. In the 386 build (32-bit target,
 // run in addition to the native build) random classes are scaled to a quarter.
 func (g *Gen) Share(n int) int {
-	if g.Build == "386" && n > 4 {
-		n = (n + 3) / 4
-	}
+	n = g.Scaled(n)
 	s := n / g.NShards
 	if g.Shard < n%g.NShards {
 		s++
@@ -195,7 +195,11 @@ func (g *Gen) Share(n int) int {
 // Scaled returns n, or a quarter of it in the 386 build (for repetition counts of enumerated loops).
 func (g *Gen) Scaled(n int) int {
 	if g.Build == "386" && n > 4 {
-		return (n + 3) / 4
+		d := 4
+		if g.prop != nil && g.prop.Scale386 > 0 {
+			d = g.prop.Scale386
+		}
+		return (n + d - 1) / d
 	}
 	return n
 }
